@@ -22,7 +22,7 @@ From Coq Require Import List ZArith.
 Import ListNotations.
 From CAres.Base Require Import Outcome.
 From CAres.Core Require Import LifecycleMonitor LifecycleMonitor_proofs Lifecycle Lifecycle_inv Lifecycle_proofs
-  Lifecycle_tokens Lifecycle_tokens_proofs Lifecycle_cancel_top Lifecycle_fuel_proofs Lifecycle_fuel_top Lifecycle_refuted.
+  Lifecycle_tokens Lifecycle_tokens_proofs Lifecycle_status Lifecycle_cancel_top Lifecycle_fuel_proofs Lifecycle_fuel_top Lifecycle_refuted.
 
 (* The executable oracle run on the implementation's trace decides exactly the declarative
    property (at most once, none after destroy, complete at destroy/end, complete at cancel). *)
@@ -85,10 +85,28 @@ Theorem C01_complete_at_cancel :
 Proof. exact run_complete_at_cancel. Qed.
 Print Assumptions C01_complete_at_cancel.
 
-(* so every trace of the model is accepted by the oracle that judges the implementation's traces *)
+(* the status: a request that was pending when the application called ares_cancel and completes
+   inside the call carries ARES_ECANCELLED; one that completes inside ares_destroy carries
+   ARES_EDESTRUCTION or ARES_ECANCELLED as long as no callback has made a request or changed the
+   servers inside that ares_destroy - whatever the kind of request and the wrappers in between *)
+Theorem C01_status_at_cancel_and_destroy :
+  forall cf fuel h final tr, cf_fix cf = all_fixed ->
+  NoDup (hist_toks h) -> run cf fuel h final = Ok tr -> status_ok tr.
+Proof. exact run_status_ok. Qed.
+Print Assumptions C01_status_at_cancel_and_destroy.
+
+(* the reason: every wrapper (getnameinfo's, with or without ARES_NI_NAMEREQD, included) hands
+   ARES_ECANCELLED / ARES_EDESTRUCTION to the closure inside unchanged *)
+Theorem C01_wrappers_pass_cancel_status :
+  forall cf f w o k r, goodr r ->
+  invoke cf (S f) (KWrap w o k) r = (let! _ := touch o in invoke cf f k r ;; free_obj o).
+Proof. exact invoke_wrap_good. Qed.
+Print Assumptions C01_wrappers_pass_cancel_status.
+
+(* so every trace of the model is accepted by both oracles that judge the implementation's traces *)
 Theorem C01_model_traces_pass_the_monitor :
   forall cf fuel h final tr, cf_fix cf = all_fixed ->
-  NoDup (hist_toks h) -> run cf fuel h final = Ok tr -> trace_ok tr.
+  NoDup (hist_toks h) -> run cf fuel h final = Ok tr -> trace_ok tr /\ status_ok tr.
 Proof. exact run_trace_ok_full. Qed.
 Print Assumptions C01_model_traces_pass_the_monitor.
 
